@@ -303,9 +303,18 @@ func (h *fwdHarness) nack(pairs []rtcp.NackPair) {
 	t := h.t
 	gotNACK(h.down, &rtcp.TransportLayerNack{MediaSSRC: capSSRC, Nacks: pairs})
 	h.observeSid()
+	asked := map[uint16]bool{}
+	for _, p := range pairs {
+		for _, n := range p.PacketList() {
+			asked[n] = true
+		}
+	}
 	for _, c := range h.cap.take() {
 		h.nRetx++
 		n := c.Hdr.SequenceNumber
+		if !asked[n] {
+			t.Fatalf("C03: NACK %v (numbers %v) was answered with the packet numbered %d, which the receiver did not ask for (and which is not what it is missing)", pairs, keys16(asked), n)
+		}
 		// identify the source packet if the body carries its number
 		srcE := -1
 		for _, cand := range []int{} {
@@ -734,4 +743,13 @@ func TestVerif_C12_RtpSequences(t *testing.T) {
 		c12rRec.Case(len(h.w) > 0 && (h.nResync > 0 || h.nRetx > 0), fwdCanon(h), fwdSample(h))
 		fwdClasses(c12rRec, h)
 	})
+}
+
+func keys16(m map[uint16]bool) []uint16 {
+	var r []uint16
+	for k := range m {
+		r = append(r, k)
+	}
+	sort.Slice(r, func(i, j int) bool { return r[i] < r[j] })
+	return r
 }
